@@ -97,12 +97,10 @@ def struct_eq(I, a, b, st):
             return False          # code-point strings of different length differ
         return b_and(*[chr_eq(x, y) for x, y in zip(ia, ib)])
     if type(a) is not type(b):
-        if isinstance(a, (Adt, Struct)) and isinstance(b, (Adt, Struct)):
-            return False
-        raise Unsupported("eq of %r and %r" % (a, b))
+        return False              # values of different shape (only arises against specification markers)
     if isinstance(a, Adt):
         if a.ty != b.ty:
-            raise Unsupported("eq across types %s %s" % (a.ty, b.ty))
+            return False
         if a.variant != b.variant:
             return False
         return b_and(*[struct_eq(I, x, y, st) for x, y in zip(a.fields, b.fields)])
